@@ -899,7 +899,35 @@ func runCase(cd caseDef, dir string, seed int64) (out caseOut) {
 						leaderMoved = true
 					}
 				}
-				if leaderMoved && !stepdown && len(o.Problems) == 0 {
+				onlyCommit := len(d) == 1 && strings.HasPrefix(d[0], "raft commit index")
+				reproduced := false
+				if onlyCommit && len(o.Problems) == 0 {
+					// Only the commit index moved. A re-election of the same leader (machine
+					// load) appends an entry too, so send the same request once more: an
+					// effect of the request repeats, a background entry does not.
+					if jb.http != nil {
+						var body []byte
+						if jb.http.Body != nil {
+							body = jb.http.Body(e, false)
+						}
+						doRawHTTP(node.APIAddr, jb.http.Method, jb.http.Path, jb.http.CT, body, jb.pr.User, jb.pr.Pass, !jb.pr.None, 60*time.Second)
+					} else {
+						cmd := jb.cmd.Build(e, false)
+						if !jb.pr.None {
+							cmd.Credentials = &clproto.Credentials{Username: jb.pr.User, Password: jb.pr.Pass}
+						}
+						doRawCommand(node.RaftAddr, cmd, 60*time.Second)
+					}
+					again, w2 := e.capture()
+					if w2 == "" {
+						d2 := diffState(after, again)
+						reproduced = len(d2) == 1 && strings.HasPrefix(d2[0], "raft commit index")
+						after = again
+					}
+				}
+				if onlyCommit && len(o.Problems) == 0 && !reproduced {
+					o.Inconcl = "commit index moved once and not again when the request was repeated (background raft entry)"
+				} else if leaderMoved && !stepdown && len(o.Problems) == 0 {
 					// leadership moved under a request that cannot move it: an election
 					// caused by load on the machine, not an effect of the request
 					o.Inconcl = "spontaneous leader change: " + strings.Join(d, "; ")
